@@ -104,6 +104,7 @@ package cluster
 
 //@ func (*ShardManager).loadShard
 //@   property C12 C16
+//@   safety +chanblock
 //@   before Join requires (len(arg0) == 5 && arg0[0] == sm.cfg.RootDir && arg0[1] == "userCollections" && arg0[2] == collection.UserId && arg0[3] == collection.Id && arg0[4] == shardId) || (len(arg0) == 2 && arg0[1] == "sharddb.bbolt")
 //@   locks 10
 //@   requires unheld(sm.shardLock)
@@ -114,7 +115,7 @@ package cluster
 
 //@ func (*ShardManager).cleanupRoutine
 //@   property C12
-//@   safety -panic -overflow
+//@   safety -panic -overflow +chanblock
 //@   requires ls != nil && unheld(sm.shardLock) && unheld(ls.mu)
 //@   ensures unheld(sm.shardLock) && unheld(ls.mu)
 //@   ensures forallv(k string, old(contains(sm.shardStore, k)) && old(sm.shardStore[k]) != ls ==> contains(sm.shardStore, k) && sm.shardStore[k] == old(sm.shardStore[k]))
@@ -123,6 +124,7 @@ package cluster
 
 //@ func (*ShardManager).DoWithShard
 //@   property C12
+//@   safety +chanblock
 //@   requires unheld(sm.shardLock) && noneHeld(loadedShard.mu)
 //@   requires forallv(k string, contains(sm.shardStore, k) ==> sm.shardStore[k] != nil)
 //@   callback f requires arg0 != nil && heldR(ls.mu)
@@ -132,7 +134,7 @@ package cluster
 //@ func (*ShardManager).DeleteCollectionShards
 //@   property C12 C16
 //@   before Join requires (len(arg0) == 4 && arg0[0] == sm.cfg.RootDir && arg0[1] == "userCollections" && arg0[2] == collection.UserId && arg0[3] == collection.Id) || len(arg0) == 2
-//@   safety -overflow
+//@   safety -overflow +chanblock
 //@   requires unheld(sm.shardLock) && noneHeld(loadedShard.mu)
 //@   requires forallv(k string, contains(sm.shardStore, k) ==> sm.shardStore[k] != nil)
 //@   ensures unheld(sm.shardLock) && noneHeld(loadedShard.mu)
